@@ -4,11 +4,20 @@
 //!       → res=<per thread 1/0 string>;… triples=<sorted s.p.o list> idx=<ok|torn>
 //!   conc rdf.inv <same>   → ok | torn      (the property's verdict on the same run)
 //!
+//!   conc lpg <n0> <progs> <sched>
+//!       → res=<per thread results>;… nodes=<id><L|D>:<labels>:<k=v&…>;… lidx=<label>:<ids>;… pidx=<value>:<ids>;…
+//!   conc lpg.inv <same>   → ok | torn
+//!       the store starts with n0 unlabelled nodes, every label L0..L2 in the catalog, an index on k0
+//!       ops: c<l.l…> create_node, d<id> delete_node, a<id>.<l> add_label, r<id>.<l> remove_label,
+//!            p<id>.<key>=<valtok> set_node_property, q<id>.<key> remove_node_property
+//!
 //!   progs = thread programs separated by `;`, ops by `,`:  i<s>.<p>.<o> insert, r<s>.<p>.<o> remove; `-` = empty
 //!   sched = comma separated worker indices (`-` = empty); afterwards every worker runs to completion
 use crate::rdf::{N_TERMS, code_of, term};
 use crate::sched::run_schedule;
 use crate::util::*;
+use grafeo_common::types::{NodeId, Value};
+use grafeo_core::graph::lpg::LpgStore;
 use grafeo_core::graph::rdf::{RdfStore, RdfStoreConfig, Triple, TriplePattern};
 use std::sync::{Arc, Mutex};
 
@@ -107,10 +116,207 @@ fn run_rdf(index_objects: bool, progs: Vec<Vec<ROp>>, sched: &[usize]) -> Result
     Ok((res, ts, rdf_consistent(&store, index_objects)))
 }
 
+// ------------------------------------------------------------------------------------ conc lpg
+
+#[derive(Clone, Debug)]
+enum LOp {
+    Create(Vec<usize>),
+    Delete(u64),
+    AddLabel(u64, usize),
+    RemLabel(u64, usize),
+    SetProp(u64, usize, String),
+    RemProp(u64, usize),
+}
+
+fn parse_lprogs(s: &str) -> Option<Vec<Vec<LOp>>> {
+    s.split(';')
+        .map(|p| {
+            if p == "-" || p.is_empty() {
+                return Some(vec![]);
+            }
+            p.split(',')
+                .map(|o| {
+                    let (k, rest) = o.split_at(1);
+                    let nums = |t: &str| -> Option<Vec<u64>> { t.split('.').map(|x| x.parse().ok()).collect() };
+                    match k {
+                        "c" => {
+                            if rest.is_empty() {
+                                Some(LOp::Create(vec![]))
+                            } else {
+                                Some(LOp::Create(nums(rest)?.into_iter().map(|x| x as usize).collect()))
+                            }
+                        }
+                        "d" => Some(LOp::Delete(rest.parse().ok()?)),
+                        "a" => {
+                            let v = nums(rest)?;
+                            if v.len() == 2 { Some(LOp::AddLabel(v[0], v[1] as usize)) } else { None }
+                        }
+                        "r" => {
+                            let v = nums(rest)?;
+                            if v.len() == 2 { Some(LOp::RemLabel(v[0], v[1] as usize)) } else { None }
+                        }
+                        "p" => {
+                            let (ik, val) = rest.split_once('=')?;
+                            let v = nums(ik)?;
+                            if v.len() == 2 { Some(LOp::SetProp(v[0], v[1] as usize, val.to_string())) } else { None }
+                        }
+                        "q" => {
+                            let v = nums(rest)?;
+                            if v.len() == 2 { Some(LOp::RemProp(v[0], v[1] as usize)) } else { None }
+                        }
+                        _ => None,
+                    }
+                })
+                .collect()
+        })
+        .collect()
+}
+
+const N_LABELS: usize = 3;
+const PVALS: [&str; 3] = ["I1", "I2", "S61"];
+
+fn lpg_dump(store: &LpgStore, max_id: u64) -> (String, bool) {
+    use grafeo_common::types::PropertyKey;
+    let live: Vec<u64> = store.node_ids().iter().map(|n| n.as_u64()).collect();
+    let mut nodes = Vec::new();
+    let mut ok = true;
+    let mut labels_of: Vec<Vec<usize>> = Vec::new();
+    for id in 0..max_id {
+        let nid = NodeId::new(id);
+        let is_live = live.contains(&id);
+        // labels through the node (live) — a dead node shows what the side table still holds via the label index only
+        let mut ls: Vec<usize> = Vec::new();
+        if let Some(n) = store.get_node(nid) {
+            for l in n.labels.iter() {
+                if let Some(c) = l.as_str().strip_prefix('L').and_then(|x| x.parse().ok()) {
+                    ls.push(c);
+                }
+            }
+        }
+        ls.sort_unstable();
+        let mut ps: Vec<(usize, String)> = Vec::new();
+        for k in 0..3usize {
+            if let Some(v) = store.get_node_property(nid, &PropertyKey::new(format!("k{}", k))) {
+                ps.push((k, crate::vals::tok(&v)));
+            }
+        }
+        nodes.push(format!(
+            "{}{}:{}:{}",
+            id,
+            if is_live { "L" } else { "D" },
+            ls.iter().map(|x| x.to_string()).collect::<Vec<_>>().join(","),
+            ps.iter().map(|(k, v)| format!("{}={}", k, v)).collect::<Vec<_>>().join("&")
+        ));
+        labels_of.push(ls);
+    }
+    let mut lidx = Vec::new();
+    for l in 0..N_LABELS {
+        let mut ids: Vec<u64> = store.nodes_by_label(&format!("L{}", l)).iter().map(|n| n.as_u64()).collect();
+        ids.sort_unstable();
+        let scan: Vec<u64> = (0..max_id).filter(|id| live.contains(id) && labels_of[*id as usize].contains(&l)).collect();
+        let mut dedup = ids.clone();
+        dedup.dedup();
+        if ids != scan || dedup.len() != ids.len() {
+            ok = false;
+        }
+        lidx.push(format!("{}:{}", l, ids.iter().map(|x| x.to_string()).collect::<Vec<_>>().join(",")));
+    }
+    let mut pidx = Vec::new();
+    for v in PVALS.iter() {
+        let mut ids: Vec<u64> = store.find_nodes_by_property("k0", &crate::vals::untok(v)).iter().map(|n| n.as_u64()).collect();
+        ids.sort_unstable();
+        pidx.push(format!("{}:{}", v, ids.iter().map(|x| x.to_string()).collect::<Vec<_>>().join(",")));
+    }
+    (format!("nodes={} lidx={} pidx={}", nodes.join(";"), lidx.join(";"), pidx.join(";")), ok)
+}
+
+fn run_lpg(n0: usize, progs: Vec<Vec<LOp>>, sched: &[usize]) -> Result<(Vec<String>, String, bool), String> {
+    let store = Arc::new(LpgStore::new());
+    // every label into the catalog (a node that is deleted again would keep its id: use node 0.. then strip)
+    for _ in 0..n0 {
+        store.create_node(&[]);
+    }
+    // register the labels without leaving a labelled node behind
+    if n0 > 0 {
+        for l in 0..N_LABELS {
+            store.add_label(NodeId::new(0), &format!("L{}", l));
+            store.remove_label(NodeId::new(0), &format!("L{}", l));
+        }
+    }
+    store.create_property_index("k0");
+    let n = progs.len();
+    // ids handed out at the end: the initial nodes plus one per create (every operation runs)
+    let max_id = n0 as u64 + progs.iter().flatten().filter(|o| matches!(o, LOp::Create(_))).count() as u64;
+    let results: Arc<Mutex<Vec<Vec<String>>>> = Arc::new(Mutex::new(vec![Vec::new(); n]));
+    let (st2, res2) = (Arc::clone(&store), Arc::clone(&results));
+    let progs = Arc::new(progs);
+    let body = move |tid: usize| {
+        for (i, op) in progs[tid].iter().enumerate() {
+            if i > 0 {
+                grafeo_common::verif::yield_point("conc.op");
+            }
+            let r = match op {
+                LOp::Create(ls) => {
+                    let names: Vec<String> = ls.iter().map(|l| format!("L{}", l)).collect();
+                    let refs: Vec<&str> = names.iter().map(|x| x.as_str()).collect();
+                    st2.create_node(&refs).as_u64().to_string()
+                }
+                LOp::Delete(id) => (if st2.delete_node(NodeId::new(*id)) { "1" } else { "0" }).to_string(),
+                LOp::AddLabel(id, l) => (if st2.add_label(NodeId::new(*id), &format!("L{}", l)) { "1" } else { "0" }).to_string(),
+                LOp::RemLabel(id, l) => (if st2.remove_label(NodeId::new(*id), &format!("L{}", l)) { "1" } else { "0" }).to_string(),
+                LOp::SetProp(id, k, v) => {
+                    st2.set_node_property(NodeId::new(*id), &format!("k{}", k), crate::vals::untok(v));
+                    "-".to_string()
+                }
+                LOp::RemProp(id, k) => (if st2.remove_node_property(NodeId::new(*id), &format!("k{}", k)).is_some() { "1" } else { "0" }).to_string(),
+            };
+            res2.lock().unwrap()[tid].push(r);
+        }
+    };
+    run_schedule(n, sched, body, || {})?;
+    let (dump, ok) = lpg_dump(&store, max_id);
+    let res = results.lock().unwrap().iter().map(|v| if v.is_empty() { "-".to_string() } else { v.join(",") }).collect();
+    Ok((res, dump, ok))
+}
+
+fn gen_lpg(r: &mut Rng, out: &mut Vec<String>) {
+    let n0 = r.range(1, 4) as usize;
+    let nthreads = r.range(2, 4) as usize;
+    let mut progs = Vec::new();
+    let mut steps = 0u64;
+    for _ in 0..nthreads {
+        let nops = r.range(1, 5);
+        let ops: Vec<String> = (0..nops)
+            .map(|_| {
+                // ids: mostly the initial nodes (contention), sometimes one that a create may hand out
+                let id = if r.chance(4, 5) { r.below(n0 as u64) } else { n0 as u64 + r.below(2) };
+                let l = r.below(N_LABELS as u64);
+                steps += 5;
+                match r.below(10) {
+                    0 => format!("c{}", l),
+                    1 => "c".to_string(),
+                    2 => format!("c{}.{}", l, (l + 1) % N_LABELS as u64),
+                    3 | 4 => format!("d{}", id),
+                    5 | 6 => format!("a{}.{}", id, l),
+                    7 => format!("r{}.{}", id, l),
+                    8 => format!("p{}.{}={}", id, r.below(2), r.pick(&PVALS)),
+                    _ => format!("q{}.{}", id, r.below(2)),
+                }
+            })
+            .collect();
+        progs.push(ops.join(","));
+    }
+    let sched: Vec<usize> = (0..r.below(steps + 1)).map(|_| r.below(nthreads as u64) as usize).collect();
+    let (p, s) = (progs.join(";"), list_arg(&sched));
+    out.push(format!("conc lpg {} {} {}", n0, p, s));
+    out.push(format!("conc lpg.inv {} {} {}", n0, p, s));
+}
+
 pub fn generate(seed: u64, cases: usize, out: &mut Vec<String>) {
     let mut r = Rng::new(seed ^ 0x636f6e63);
     for c in 0..cases {
         out.push(format!("# case {} seed {}", c, seed));
+        gen_lpg(&mut r, out);
         let io = if r.chance(2, 3) { 1 } else { 0 };
         let nthreads = r.range(2, 4) as usize;
         // few distinct triples so that threads collide on the same triple and the same index keys
@@ -151,6 +357,24 @@ pub fn run(args: &[&str]) -> String {
                     Ok((res, ts, ok)) => {
                         if *kind == "rdf" {
                             format!("res={} triples={} idx={}", res.join(";"), ts, if ok { "ok" } else { "torn" })
+                        } else if ok {
+                            "ok".to_string()
+                        } else {
+                            "torn".to_string()
+                        }
+                    }
+                }
+            }
+            [kind @ ("lpg" | "lpg.inv"), n0, progs, sched] => {
+                let (Ok(n0), Some(progs), Some(sched)) = (n0.parse::<usize>(), parse_lprogs(progs), parse_u64s(sched)) else {
+                    return "bad-op".to_string();
+                };
+                let sched: Vec<usize> = sched.iter().map(|x| *x as usize).collect();
+                match run_lpg(n0, progs, &sched) {
+                    Err(e) => format!("stuck:{}", e.replace(' ', "_")),
+                    Ok((res, dump, ok)) => {
+                        if *kind == "lpg" {
+                            format!("res={} {}", res.join(";"), dump)
                         } else if ok {
                             "ok".to_string()
                         } else {
